@@ -124,6 +124,7 @@ func mutate(rng *lib.Rand, raw []byte, k int) []byte {
 func main() {
 	r := lib.Start("C01", "exploration")
 	r.Rule = "envelopes {fresh x JWS/COSE x both schemes x 2 signers x 2 artifacts x metadata variants; re-assembled from every choice of parts (protected header, payload, signature, unprotected header) of pairs of valid envelopes; byte-mutated with 1-3 edits; structure-aware variants} x presented artifact {signed one; differing in exactly one of digest / size / media type; blob content differing by one byte / one length; blob media type stated / unstated / different} x required metadata {none, subset, exact, one value changed, one extra key, empty value for a missing key} x 24 non-skip levels x {fully trusting, most permissive (audit, revocation skipped, untrusted signer)} x 4 entry points; distinct by the full tuple; non-trivial = anything but (fresh envelope, signed artifact, no required metadata)"
+	r.Rule += "; plus histories on one verifier / one options value (a reused metadata requirement, signatures listed before the good one, a same-named skip statement of the other policy kind used first) and blobs presented through readers that are not at their beginning"
 	r.Assumptions = []string{"the reference verifier is notation-core-go's ParseEnvelope+Verify on the raw bytes plus the harness's own decoding of the payload (never the outcome object returned by the code under test)",
 		"only successes are judged (the property is 'success => ...'); the number of successes per stratum is a vacuity guard"}
 	ctx := context.Background()
